@@ -28,10 +28,10 @@ class Marker:
     pass
 
 
-def build_schema(groups):
+def build_schema(groups, dynamic=False):
     """-> (schema, expected attribute keys, persistent keys, method keys)"""
     import cincoconfig as cc
-    s = cc.Schema()
+    s = cc.Schema(dynamic=dynamic)
     attrs, persistent = [], []
 
     def add(key, field, virtual=False):
@@ -126,7 +126,7 @@ def make_func(sig, name="meth"):
 
 
 def bounds(tier):
-    return {"field_group_subsets": 2 ** len(GROUPS), "targets": ["Schema", "Config", "ConfigType"], "signatures": len(signatures(tier))}
+    return {"field_group_subsets": 2 ** len(GROUPS), "targets": ["Schema", "Config", "ConfigType", "DynamicConfig (with run-time fields)"], "signatures": len(signatures(tier))}
 
 
 def jobs(tier):
@@ -151,9 +151,9 @@ def run_job(job, ctx):
         return
     if job["kind"] == "fields":
         for groups in job["subsets"]:
-            for target in ("Schema", "Config", "ConfigType"):
+            for target in ("Schema", "Config", "ConfigType", "DynamicConfig"):
                 check_fields(ctx, groups, target)
-        ctx.sample({"field_groups": job["subsets"][-1], "targets": ["Schema", "Config", "ConfigType"]})
+        ctx.sample({"field_groups": job["subsets"][-1], "targets": ["Schema", "Config", "ConfigType", "DynamicConfig"]})
     else:
         # several signatures per schema: chunks of 3 methods, and each alone
         sigs = job["sigs"]
@@ -215,7 +215,7 @@ def fparams(fn):
 
 def check_fields(ctx, groups, target):
     import cincoconfig as cc
-    schema, attrs, persistent = build_schema(groups)
+    schema, attrs, persistent = build_schema(groups, dynamic=(target == "DynamicConfig"))
     case = {"kind": "fields", "groups": groups, "target": target, "job": "fields"}
     fp = "C20|fields|%s|" % target
 
@@ -224,6 +224,11 @@ def check_fields(ctx, groups, target):
     cfg = schema()
     if target == "Schema":
         obj, name = schema, "Stub"
+    elif target == "DynamicConfig":
+        # a configuration of a dynamic schema that carries fields of its own, added at run time
+        cfg.runtime_extra = 5
+        cfg.runtime_other = "x"
+        obj, name = cfg, "Stub"
     elif target == "Config":
         obj, name = cfg, "Stub"
     else:
@@ -255,6 +260,10 @@ def check_fields(ctx, groups, target):
         return
     if classes[0].name != (name or "StubT"):
         bad("class-name", "class is named %s" % classes[0].name)
+    if target == "DynamicConfig":
+        anns = [a for a in anns if a not in ("runtime_extra", "runtime_other")]       # whether run-time fields are declared is not judged
+        if init is not None:
+            init.args.args = [a for a in init.args.args if a.arg not in ("runtime_extra", "runtime_other")]
     if sorted(anns) != sorted(attrs) or len(set(anns)) != len(anns):
         missing = sorted(set(attrs) - set(anns)); extra = sorted(set(anns) - set(attrs))
         bad("attributes", "annotated attributes missing %s, unexpected %s" % (missing, extra))
@@ -268,8 +277,15 @@ def check_fields(ctx, groups, target):
         bad("unexpected-methods", "methods %s in a schema without instance methods" % sorted(funcs))
     if schema_snap(schema) != snap0:
         bad("schema-changed", "generate_stub changed the schema")
+    if target == "DynamicConfig":
+        other = schema()
+        if "runtime_extra" in other or "runtime_extra" in schema._fields or "runtime_extra" in [k for k, _ in other]:
+            bad("schema-changed|runtime-field", "after generating a stub from a configuration, its run-time fields belong to the schema / to new configurations")
+        again = gen(schema, "Stub")[0]
+        if again[0] == "ok" and "runtime_extra" in again[1]:
+            bad("schema-changed|schema-stub", "a stub generated from the schema now declares another configuration's run-time field")
     # the schema grows after a stub was generated: the next stub must describe the schema as it is now
-    if target != "Config":
+    if target not in ("Config", "DynamicConfig"):
         schema.late_field = cc.IntField()
         schema.late_virtual = cc.VirtualField(lambda c: 0)
         cc.instance_method(schema, "late_method")(lambda c, a, *rest, **kw: None)
